@@ -120,6 +120,7 @@ func (r HoldRule) matches(m *Msg) bool {
 }
 
 type World struct {
+	CloneMode  bool // C11 thorough: judge every emitted message at once against replayed copies of every correct peer
 	Cfg        Config
 	Reg        *fakes.Registry
 	Env        *ref.Env
@@ -286,6 +287,7 @@ func (w *World) Start() {
 		if n == nil || n.Crashed {
 			continue
 		}
+		n.Inbox = append(n.Inbox, InEvent{Kind: "sync"})
 		w.guard(n, func() {
 			n.VN.Gc()
 			if n.VN.MainUpdateState(nil, nil) {
@@ -293,6 +295,72 @@ func (w *World) Start() {
 			}
 		})
 	}
+}
+
+// CloneByReplay builds a fresh, detached copy of correct node j by feeding a new node that node's entire input history.
+// The clone's sends and callbacks are only recorded on the clone; nothing reaches the world or its monitors.
+func (w *World) CloneByReplay(j int) (clone *Node, ok bool) {
+	orig := w.Nodes[j]
+	if orig == nil {
+		return nil, false
+	}
+	n := &Node{Idx: j, ID: w.IDs[j], PrevOf: map[uint64]Round{}}
+	n.BU = fakes.NewBlockUtils(string(n.ID))
+	n.BU.AcceptAll = orig.BU.AcceptAll
+	n.BU.Reject = orig.BU.Reject
+	n.Mem = &fakes.Membership{Me: n.ID, Committee: w.Committee}
+	n.Sto = fakes.NewRecStorage()
+	n.Sch = fakes.NewSched()
+	n.KM = &fakes.KeyManager{Reg: w.Reg, Me: n.ID}
+	cfg := &interfaces.Config{
+		InstanceId: Instance,
+		Communication: &fakes.Communication{Send: func(rec []primitives.MemberId, raw *interfaces.ConsensusRawMessage) {
+			n.Sent = append(n.Sent, &SentMsg{From: j, Raw: raw, Meta: MetaOf(raw), AtH: n.H(), AtV: n.V()})
+		}},
+		Membership: n.Mem, BlockUtils: n.BU, KeyManager: n.KM, Storage: n.Sto, OverrideElectionTrigger: n.Sch,
+	}
+	failH := uint64(0)
+	if isIn(w.Cfg.FailCommit, j) {
+		failH = w.Cfg.FailCommitH
+	}
+	n.VN = leanhelix.NewVerifNode(cfg,
+		func(ctx context.Context, block interfaces.Block, proof []byte) error {
+			n.Commits = append(n.Commits, Commit{H: uint64(block.Height()), Block: fakes.AsBlock(block), Proof: proof})
+			if failH != 0 && uint64(block.Height()) == failH {
+				return fmt.Errorf("consumer failed")
+			}
+			return nil
+		},
+		func(ctx context.Context, h primitives.BlockHeight, prev interfaces.Block, canBeFirst bool) {})
+	ok = true
+	func() {
+		defer func() {
+			if recover() != nil {
+				ok = false
+			}
+		}()
+		for _, e := range orig.Inbox {
+			n.VN.Gc()
+			switch e.Kind {
+			case "msg":
+				n.VN.MainMessage(e.Raw)
+				n.VN.WorkerMessage(e.Raw)
+			case "timeout":
+				if trig := n.Sch.Trigger(); trig != nil && n.VN.MainElection(trig) {
+					n.VN.WorkerElection(trig)
+				}
+			case "sync":
+				var b interfaces.Block
+				if e.Block != nil {
+					b = e.Block
+				}
+				if n.VN.MainUpdateState(b, e.Proof) {
+					n.VN.WorkerUpdateState(b, e.Proof)
+				}
+			}
+		}
+	}()
+	return n, ok
 }
 
 func (w *World) guard(n *Node, f func()) {
